@@ -82,7 +82,14 @@ func (a *ForwardAuth) Authorize(r *http.Request, requestPath string, body []byte
 
 	client := a.Client
 	if client == nil {
-		client = &http.Client{Timeout: timeout}
+		// Never follow redirects: a 3xx answer is not an allow decision, and the
+		// redirect target's 2xx must not be mistaken for one.
+		client = &http.Client{
+			Timeout: timeout,
+			CheckRedirect: func(*http.Request, []*http.Request) error {
+				return http.ErrUseLastResponse
+			},
+		}
 	}
 	resp, err := client.Do(req)
 	if err != nil {
